@@ -118,7 +118,7 @@ func init() {
 		},
 		NotCovered: []string{
 			"the legacy JSON branches: json.Unmarshal fills the Go value directly, there is no field-by-field code to put under contract",
-			"the hand-written binary codec of the output store (messageBatch.marshal / unmarshalMessageBatch): its round trip needs a recursive description of a variable-length byte layout, which this generator does not reach; not claimed",
+			"the byte-level round trip of the hand-written binary codec of the output store (messageBatch.marshal / unmarshalMessageBatch) needs a recursive description of a variable-length byte layout, which this generator does not reach; what is proved about it is only that every decoded message owns a fresh recipient map distinct from all others",
 		},
 	}
 	p.Prepare = func(e *vc.Engine) error {
@@ -128,6 +128,7 @@ func init() {
 			{"raftstore.LevelDBStore.GetLog", asserts}, {"raftstore.LevelDBStore.StoreLogs", asserts}, {"raftstore.LevelDBStore.StoreLogProto", asserts},
 			{"raftstore.LevelDBStore.ConvertToProto", asserts},
 			{"main.FSM.Apply", asserts}, {"main.FSM.Snapshot", asserts}, {"main.FSM.decodeProtobuf", asserts}, {"main.dumpLogToDisk1", asserts}, {"main.canary", asserts},
+			{"outputstream.unmarshalMessageBatch", post},
 		}
 		return nil
 	}
